@@ -205,6 +205,7 @@ func checkC02(c *Ctx, r *Report, tier string) {
 	round5(c, r, "C02")
 	round6(c, r, "C02")
 	round7(c, r, "C02")
+	round8(c, r, "C02")
 	x := newIdxLocks(c)
 	r.Rule("C02.R1", "shard-lock discipline: every operation on a shard map of the index happens with the mutex paired with it must-held (write lock for writes)", 4)
 	r.Rule("C02.R2", "insert-if-absent / delete-if-present: every insertion into a shard map is guarded by the absent polarity of a lookup of the same key in the same map, every deletion by the present polarity, in the same critical section", 2)
